@@ -89,10 +89,18 @@ def main():
         shutil.rmtree(build_root, ignore_errors=True)
 
 
+_BUILDS = {}
+
+
 def build_run(run, build_root):
-    wd = os.path.join(build_root, run['name'])
-    srcs = [os.path.join(HERE, s) for s in run['sources']]
-    return R.build(wd, srcs, lib_tus=run.get('lib_tus'), extra_defs=run.get('defs', ()))
+    key = (tuple(run['sources']), tuple(run.get('lib_tus') or ()), tuple(run.get('defs', ())))
+    ll = _BUILDS.get(key)
+    if ll is None:
+        wd = os.path.join(build_root, 'b%d' % len(_BUILDS))
+        srcs = [os.path.join(HERE, s) for s in run['sources']]
+        ll = R.build(wd, srcs, lib_tus=run.get('lib_tus'), extra_defs=run.get('defs', ()))
+        _BUILDS[key] = ll
+    return ll
 
 
 def run_opts(run, tier):
@@ -145,7 +153,8 @@ def do_check(pid, tier, seed, spec, runs, build_root, out_dir, jobs, t0):
         try:
             ll = build_run(run, build_root)
             res = R.explore_parallel(ll, opts=run_opts(run, tier), jobs=jobs,
-                                     budget_s=run.get('budget_s', budget))
+                                     budget_s=run.get('budget_s', budget), min_tasks=run.get('min_tasks'),
+                                     max_split=run.get('max_split', 12))
         except (MachineryError, Inconclusive) as e:
             errors.append((run['name'], type(e).__name__, str(e)))
             continue
